@@ -21,6 +21,7 @@ ASSUMPTIONS = [
 
 GRID = 0.25
 STARTS = [0.0, 0.3, 0.999]
+_PROXY = False        # job variant: the client connects through an explicit HTTP proxy
 _STALLED = False      # job variant: the peer stops reading (written octets stay in the write buffer)
 
 
@@ -52,6 +53,10 @@ def main(ctx):
             if j["sc"] in ("open", "close") or (j["sc"] == "ping" and j["T"]):
                 if j["start"] == 0.0:
                     jobs.append(dict(j, stalled=True))
+            # the client reaches the server through an explicit proxy: the opening-handshake deadline
+            # covers the CONNECT phase as well
+            if j["sc"] == "open" and j["role"] == "client":
+                jobs.append(dict(j, proxy=True))
         ctx.pmap({"fw": fw, "nvx": "1"}, "props.c17:job", jobs)
     ctx.coverage["states"] = int(ctx.counters["configs"])
     ctx.coverage["transitions"] = int(ctx.counters["evaluations"])
@@ -61,7 +66,7 @@ def main(ctx):
               "close:responsive_ok", "drop:silent_dropped", "drop:responsive_ok",
               "ping:silent_dropped", "ping:responsive_ok", "ping:data_counts",
               "ping:data_does_not_count", "after_closed_checked", "pings_seen", "disabled_ok",
-              "stalled_peer_jobs", "ping:fragment_as_traffic"):
+              "stalled_peer_jobs", "ping:fragment_as_traffic", "proxy_jobs"):
         ctx.require(n)
 
 
@@ -75,7 +80,9 @@ class Run:
         from ref import ws_frames as F
         self.F = F
         self.role = role
-        self.ep = ws.Endpoint(role, opts, start=start)
+        self.proxy = _PROXY and role == "client"
+        self.ep = ws.Endpoint(role, opts, start=start,
+                              **({"proxy": {"host": "proxy.local", "port": 3128}} if self.proxy else {}))
         self.conn = self.ep.conn
         self.p = self.ep.proto
         self.t = self.ep.t
@@ -100,6 +107,15 @@ class Run:
             ep.feed(ep.server_request())
         else:
             self.conn.settle()
+            if self.proxy:
+                # the proxy accepts the CONNECT, then the server answers the handshake
+                ep.feed(b"HTTP/1.1 200 Connection established\r\n\r\n")
+                self.conn.settle()
+                if b"Sec-WebSocket-Key" not in bytes(self.t.written):
+                    # the connection was given up before the proxy answered: nothing to answer
+                    self.hs_len = len(self.t.written)
+                    self.parsed = self.hs_len
+                    return
             ep.feed(ep.client_response(bytes(self.t.written)))
         self.hs_len = len(self.t.written)
         self.parsed = self.hs_len
@@ -223,7 +239,10 @@ def job(a):
 
     role, start = a["role"], a["start"]
     sc = a["sc"]
-    global _STALLED
+    global _STALLED, _PROXY
+    _PROXY = bool(a.get("proxy"))
+    if _PROXY:
+        count("proxy_jobs")
     _STALLED = stalled = bool(a.get("stalled"))
     if stalled:
         count("stalled_peer_jobs")
